@@ -1087,10 +1087,17 @@ func (ecd *Encoder) polyToFloatCRT(p ring.Poly, values FloatSlice, scale rlwe.Sc
 				if values[i][0] == nil {
 					values[i][0] = new(big.Float)
 				}
+
+				if values[i][1] == nil {
+					values[i][1] = new(big.Float)
+				}
 			}
 
 			values[i][0].SetInt(bigintCoeffs[i])
 			values[i][0].Quo(values[i][0], s)
+
+			// The coefficients are real: the imaginary part is set, not left as the caller's slice had it
+			values[i][1].SetInt64(0)
 		}
 	default:
 		return fmt.Errorf("cannot polyToComplexNoCRT: values.(Type) must be []complex128, []*bignum.Complex, []float64 or []*big.Float but is %T", values)
@@ -1172,13 +1179,20 @@ func (ecd *Encoder) polyToFloatNoCRT(coeffs []uint64, values FloatSlice, scale r
 			if values[i] == nil {
 				values[i] = &bignum.Complex{
 					new(big.Float),
-					nil,
+					new(big.Float),
 				}
 			} else {
 				if values[i][0] == nil {
 					values[i][0] = new(big.Float)
 				}
+
+				if values[i][1] == nil {
+					values[i][1] = new(big.Float)
+				}
 			}
+
+			// The coefficients are real: the imaginary part is set, not left as the caller's slice had it
+			values[i][1].SetInt64(0)
 
 			if coeffs[i] >= Q>>1 {
 				/* #nosec G115 -- Q - coeffs[i] <= 61 bits */
